@@ -43,6 +43,9 @@ TWINS = [  # (MUT, property that must reject it)
     ("view_drops_attrs", "IdentityKeptP"),
     ("widen_changes_values", "InputsUntouchedP"),
     ("apply_touches_zones", "InputsUntouchedP"),
+    ("coords_shared", "NoAliasP"),              # agg.copy(deep=False, data=out): scalar / auxiliary coordinate buffers shared
+    ("dask_kernel_inplace", "InputsUntouchedP"),   # kernel writes over a Dask raster's own blocks (astype to same dtype = self)
+    ("dask_kernel_inplace", "RecomputeP"),
 ]
 
 # relative cost of one call in a not yet seen (dtype, layout) configuration (first-call JIT), seconds
@@ -96,12 +99,15 @@ def pick_quick(cfgs, seed, meta):
     for c in cfgs:
         key = (c["dtype"], c["layout"])
         if key == ("float64", "C"):
-            sel.append(dict(c, finite=True))
+            # on Dask this all-finite raster is a SINGLE chunk (chunks=-1): special cases for npartitions == 1; the other
+            # Dask rasters of the tier (NaN-bearing float64 where taken, float32, int32) have 2 x 2 chunks
+            sel.append(dict(c, finite=True, single_chunk=(c["backend"] == "dask")))
             if meta[c["f"]]["nan_inputs"]:
                 sel.append(dict(c))
         elif key == ("int32", "C") and ((c["backend"] == "numpy" and c["f"] not in same_code) or c["f"] not in heavy):
             sel.append(dict(c))
-        elif c["backend"] == "numpy" and key == ("float32", "C") and c["f"] not in heavy:
+        elif key == ("float32", "C") and c["f"] not in heavy:
+            # float32 on Dask too: dask's astype('f4') returns the array itself there
             sel.append(dict(c))
         elif c["backend"] == "numpy" and key == extra and c["f"] not in heavy:
             sel.append(dict(c))
@@ -114,7 +120,7 @@ def config_jobs(cfgs, variants=None):
         jobs.append({"sid": i, "tag": "config", "cfgrec": c,
                      "calls": [{"f": c["f"], "variant": (variants or {}).get(c["f"], 0) if not isinstance(variants, int) else variants,
                                 "args": None, "dtype": c["dtype"], "layout": c["layout"], "backend": c["backend"],
-                                "finite": bool(c.get("finite"))}]})
+                                "finite": bool(c.get("finite")), "single_chunk": bool(c.get("single_chunk"))}]})
     return jobs
 
 
@@ -266,7 +272,7 @@ def run(ctx):
 
 def model_part(ctx):
     # ---------------------------------------------------------------- M
-    props = ["InputsUntouchedP", "NoAliasP", "IdentityKeptP"]
+    props = ["InputsUntouchedP", "NoAliasP", "IdentityKeptP", "RecomputeP"]
     ctx.model_check("Aliasing", dict(spec="Spec", invariants=["TypeOK"], properties=props, view="MCView",
                                      constants=mc_constants(maxcalls=ctx.pick(2, 3))), "sessions_2obj", coverage=True)
     if ctx.tier == "thorough":
@@ -278,7 +284,7 @@ def model_part(ctx):
                                          constants=mc_constants(perlin="asis", nobj=1)), "perlin_asis_" + p, expect="violation", workers=1)
     for mut, prop in TWINS:
         ctx.model_check("Aliasing", dict(spec="Spec", properties=[prop], view="MCView",
-                                         constants=mc_constants(mut=mut)), "neg_" + mut, expect="violation", workers=1)
+                                         constants=mc_constants(mut=mut)), "neg_%s_%s" % (mut, prop), expect="violation", workers=1)
     # why a fixture of one dtype cannot expose it: the astype twins are invisible when only int32 rasters exist
     for mut in ("astype_noop_return", "astype_noop_inplace"):
         r = ctx.model_check("Aliasing", dict(spec="Spec", properties=props, view="MCView",
@@ -317,12 +323,14 @@ def replay_part(ctx, rng, focus):
     if ctx.tier == "thorough":
         # everything, plus all-finite float rasters on the C layout for every function
         sel = allcfgs + [dict(c, finite=True) for c in allcfgs if c["layout"] == "C" and c["dtype"] in ("float32", "float64")]
+        # single-chunk Dask rasters (chunks=-1) for every function and dtype on the C layout
+        sel += [dict(c, single_chunk=True) for c in allcfgs if c["layout"] == "C" and c["backend"] == "dask"]
         extra = None
     else:
         sel, extra = pick_quick(allcfgs, ctx.seed, meta)
-        ctx.note("quick tier: every function on float64/C all-finite (+ NaN-bearing where it takes NaN) on both backends and "
-                 "on int32/C on numpy; without the ten JIT-heavy functions: int32/C on dask, float32/C and seeded %s on numpy"
-                 % (extra,))
+        ctx.note("quick tier: every function on float64/C all-finite (single chunk on dask; + NaN-bearing where it takes NaN) "
+                 "on both backends and on int32/C on numpy; without the ten JIT-heavy functions: "
+                 "float32/C and int32/C (multi-chunk) on dask, float32/C and seeded %s on numpy" % (extra,))
     jobs = config_jobs(sel)
     ncfg = len(jobs)
     # other parameter variants of every function (quick: float64/C; thorough: four configurations)
